@@ -1438,6 +1438,9 @@ func (d *Driver) HintString(h M) string {
 		case string:
 			first = a
 		}
+		if azp, _ := claims["azp"].(string); azp != "" {
+			first = azp // the client the token was issued to (the audience may start with resource servers)
+		}
 		for _, other := range []string{"cw", "cx", "cj"} {
 			if other != first {
 				c["aud"] = []string{first, other}
